@@ -127,7 +127,7 @@ def c06(run, scratch):
         run.sample({"src": b2s(ev["src"])[:200], "items": [it["k"] for it in ev["items"]][:12],
                     "splits": [s["k"] for s in ev["splits"]]})
     validate_pure_trace(run, scratch, "Trace_Stream", "Trace_Stream", events, workers=14 if thorough else 10,
-                        timeout=3000, corrupt=_stream_corrupt,
+                        timeout=3000, corrupt=_stream_corrupt, xmx="28g" if thorough else "6g",
                         canary_pred=lambda ev: len(ev["splits"]) > 0 and len(ev["items"]) > 0,
                         signature=lambda ev: {"src": b2s(ev["src"])[:120]})
     recorditer_traces(run, scratch, SMALL_CORPUS[2:4] + (BIG_CORPUS if thorough else BIG_CORPUS[1:]), crlf=True)
